@@ -83,6 +83,23 @@ pub fn run(ctx: &Ctx) -> Outcome {
                         }
                     }
                 }
+                // far offsets: around block indices 2^32 and 2^64 (seek with a u128 position), requests that cross them
+                for base_block in [1u128 << 32, 1u128 << 64] {
+                    for back in [0usize, 1, 17, 16 * (par + 1)] {
+                        for &len in &[1usize, 16, 17, (2 * par + 1) * 16 + 3] {
+                            rep.case(|| {
+                                let posn = base_block * 16 - back as u128;
+                                let mut s = rec::stream(cfg, d, key, iv);
+                                ensure!(s.seek(SeekTy::U128, posn) == Some(Ok(())), "seek_refused/belt", "{}: seek to byte {} refused", d.ty, posn);
+                                let mut out = data[..len].to_vec();
+                                ensure!(s.apply(Kind::InPlace, &[], &mut out).is_ok(), "request_refused/belt", "{}: {} bytes at byte offset {} (block {}) refused although 2^128-1 blocks are available", d.ty, len, posn, posn / 16);
+                                let want = rf::x(&data[..len], &rf::belt_ks(&c, iv, posn / 16, (posn % 16) as usize, len));
+                                ensure!(out == want, "keystream_wrong/belt", "{} {} at byte offset {}: {} want {}", d.ty, ivn, posn, short(&out), short(&want));
+                                Ok(())
+                            });
+                        }
+                    }
+                }
                 // block level: core positioned at block b, batches, exported state = D(s_0 + blocks)
                 for b in [0u128, 1, par as u128, (par + 1) as u128] {
                     for m in [1usize, par, 2 * par + 1] {
